@@ -464,7 +464,15 @@ def main():
     memcheck_arm(tr, F, tot)
     if (tot.get("memcheck.cases", 0) == 0) and F.n_unlisted() == 0:
         raise Harness("memcheck arm ran nothing: %s" % tot)
-    fuzz_arm(tr, F, tot)
+    try:
+        fuzz_arm(tr, F, tot)
+    except Harness as e:
+        # the clang build of the tree can fail where the project's own gcc build does not (-Werror=format-security ...): that
+        # must not hide what the gcc-built arms above have already found
+        if F.n_unlisted() == 0:
+            raise
+        tot["fuzz.arm_unavailable"] = 1
+        log("[C02] libFuzzer arm unavailable: %s" % str(e)[:200])
     if (tot.get("fuzz.execs", 0) == 0) and F.n_unlisted() == 0:
         raise Harness("libFuzzer arm executed nothing: %s" % tot)
     if (tot.get("asan.vivo_real", 0) == 0 or tot.get("vitro.vitro_ds", 0) == 0) and F.n_unlisted() == 0:
